@@ -110,6 +110,12 @@ class Tr:
         self.closed = True
 
 
+class Insight:
+    def __init__(self, summary):
+        self.summary = summary
+        self.cpu = 0
+
+
 def frame(m):
     p = M.dumps(m)
     return struct.pack('>I', len(p)) + p
@@ -141,6 +147,9 @@ def run_case(case):
     Fs, works = engine.build(desc)
     F.clear()
     F.ARCHIVE = False
+    # what navel gazing learnt about earlier runs: some units are marked for
+    # the cloud (cpu 0: the order of the cluster queue is left to the run ids)
+    F.insights.clear()
     F._reject.clear()
     F._repeat.clear()
     S.promote.clear()
@@ -149,6 +158,11 @@ def run_case(case):
     S.build(Fs, [{}, {}, {}], [{}, {}, {}, {}])
     N = all_nodes()
     tags = sorted(N)
+    for tn in ['__all__'] + tnames:
+        for tag in tags:
+            if rng.random() < 0.25:
+                F.insights['.'.join([tn, tag])] = Insight(
+                    dawgie.Distribution.cloud if rng.random() < 0.7 else dawgie.Distribution.cluster)
     nid = {t: i for i, t in enumerate(tags)}
     tid = {'__all__': 0}
     for i, t in enumerate(tnames):
